@@ -204,9 +204,11 @@ class Run:
         if total.errors:
             for e in total.errors[:3]:
                 print('HARNESS ERROR:', e, file=sys.stderr)
-            print(f'{self.prop}: {len(total.errors)} harness error(s); no verdict', file=sys.stderr)
-            self._write_evidence(wall, unlisted=0, known=[], harness_errors=len(total.errors))
-            return 2
+            if not total.violations:
+                print(f'{self.prop}: {len(total.errors)} harness error(s); no verdict', file=sys.stderr)
+                self._write_evidence(wall, unlisted=0, known=[], harness_errors=len(total.errors))
+                return 2
+            print(f'{self.prop}: {len(total.errors)} harness error(s) besides the violations reported below', file=sys.stderr)
         kf = KnownFindings()
         unlisted = []
         known_hit = []
@@ -227,7 +229,7 @@ class Run:
         for key, text, fname in unlisted:
             print(f'  finding {key}: {text[:300]}')
             print(f'VIOLATION property={self.prop} replay={fname}')
-        self._write_evidence(wall, unlisted=len(unlisted), known=[k for k, _ in known_hit], harness_errors=0)
+        self._write_evidence(wall, unlisted=len(unlisted), known=[k for k, _ in known_hit], harness_errors=len(total.errors))
         self.log(f'done: evaluations={total.evaluations} states={len(total.states)} '
                  f'transitions={total.transitions} distinct_nontrivial={len(total.nontrivial)} '
                  f'outcomes={len(total.outcomes)} violations={len(unlisted)} known={len(known_hit)}')
